@@ -68,6 +68,35 @@ $(B)/bin/C07: $(B)/asan/h_C07.o $(ASAN_LIBOBJS) $(ENGINE_OBJS) $(B)/asan/newdele
 	@mkdir -p $(dir $@)
 	$(CXX) $(SAN) -o $@ $^ $(LIBS)
 
+# ---- C12: the real cholesky_solve.c with its pthread calls renamed to the scheduler (ASan), and a TSan build with real pthreads
+$(B)/sched/cholesky_solve.o: $(REPO)/src/fitter/cholesky_solve.c $(VERIF)engine/sched/shim.h
+	@mkdir -p $(dir $@)
+	$(CC) $(ASAN_C) $(INC) $(DEFS) -include $(VERIF)engine/sched/shim.h -MMD -c $< -o $@
+$(B)/sched/ms_sched.o: $(VERIF)engine/sched/ms_sched.c $(VERIF)engine/sched/ms_sched.h
+	@mkdir -p $(dir $@)
+	$(CC) -std=gnu99 -O1 -g $(SAN) -c $< -o $@
+$(B)/sched/h_C12.o: $(VERIF)checks/C12.cpp $(wildcard $(VERIF)engine/*.hpp) $(VERIF)engine/sched/ms_sched.h
+	@mkdir -p $(dir $@)
+	$(CXX) $(ASAN_CXX) $(INC) -I$(REPO)/src/fitter $(DEFS) -MMD -c $< -o $@
+$(B)/bin/C12: $(B)/sched/h_C12.o $(B)/sched/cholesky_solve.o $(B)/sched/ms_sched.o
+	@mkdir -p $(dir $@)
+	$(CXX) $(SAN) -o $@ $^ -lcholmod -lm -lpthread
+TSAN := -fsanitize=thread -O1 -g -fno-omit-frame-pointer
+$(B)/tsan/fitter_%.o: $(REPO)/src/fitter/%.c
+	@mkdir -p $(dir $@)
+	$(CC) -std=gnu99 $(TSAN) $(INC) $(DEFS) -MMD -c $< -o $@
+$(B)/tsan/core_%.o: $(REPO)/src/core/%.cpp
+	@mkdir -p $(dir $@)
+	$(CXX) -std=c++11 $(TSAN) -Wno-register $(INC) $(DEFS) -MMD -c $< -o $@
+$(B)/tsan/h_C12tsan.o: $(VERIF)checks/C12tsan.cpp $(wildcard $(VERIF)engine/*.hpp)
+	@mkdir -p $(dir $@)
+	$(CXX) -std=c++11 $(TSAN) -fno-access-control -Wno-register $(INC) -I$(REPO)/src/fitter $(DEFS) -MMD -c $< -o $@
+$(B)/bin/C12tsan: $(B)/tsan/h_C12tsan.o $(addprefix $(B)/tsan/fitter_,$(addsuffix .o,$(FITTER))) $(addprefix $(B)/tsan/core_,$(addsuffix .o,$(CORE)))
+	@mkdir -p $(dir $@)
+	$(CXX) -fsanitize=thread -o $@ $^ $(LIBS)
+harness-C12: $(B)/bin/C12 $(B)/bin/C12tsan
+	@true
+
 harness-%: $(B)/bin/%
 	@true
 
@@ -75,7 +104,7 @@ harness-%: $(B)/bin/%
 clean:
 	rm -rf $(VERIF)build
 
--include $(wildcard $(B)/asan/*.d) $(wildcard $(B)/opt/*.d) $(wildcard $(B)/*/*.d)
+-include $(wildcard $(B)/*/*.d)
 
 # ---- C03: the same harness source in four build variants (library PUBLIC flags / ASan) x (with / without
 # PHOTOSPLINE_NO_EVAL_TEMPLATES).  bin/C03 is the primary (opt, templates).
